@@ -28,6 +28,15 @@ Definition accepts_currents (I : list Q) : bool := Qle_bool (Qabs (qsum I)) ((1 
 (* time-dependent currents: the check is evaluated at the sample times only *)
 Definition accepts_td (f : Q -> list Q) (samples : list Q) : bool := forallb (fun t => accepts_currents (f t)) samples.
 
+(* where the sample times come from: u * tmax for u uniform in [0, 1), tmax = max(solve_time, skip_time) (as found: solve_time).
+   The run evaluates the currents at times in [0, skip_time] (thermalisation stage; the clock restarts afterwards) and at times
+   in [0, solve_time] (main stage). *)
+Definition qmax (a b : Q) : Q := if Qle_bool a b then b else a.
+Definition sample_tmax (repaired : bool) (solve skip : Q) : Q := if repaired then qmax solve skip else solve.
+Definition sample_times (repaired : bool) (solve skip : Q) (us : list Q) : list Q :=
+  map (fun u => u * sample_tmax repaired solve skip) us.
+Definition used_time (solve skip t : Q) : Prop := 0 <= t /\ (t <= skip \/ t <= solve).
+
 (* ---- order of events in TDGLSolver.__init__ + solve ---- *)
 Inductive event := Check (name : nat) | Reject (name : nat) | CreateFile | MkTempDir | Run.
 (* checks in code order: options, vector-potential shape, epsilon <= 1, terminals touch the boundary,
